@@ -122,9 +122,43 @@ def env_vars(src):
     return sorted(names)
 
 
+def helper_programs(src):
+    """Names of external programs the source tree mentions: first string argument of shutil.which(...), first element of a list literal
+    or first word of a string literal passed to subprocess.run/call/check_call/check_output/Popen, os.system, os.popen, os.startfile."""
+    names = set()
+    root = os.path.join(src, "rp2")
+    for dirpath, _, files in os.walk(root):
+        for f in files:
+            if not f.endswith(".py"):
+                continue
+            try:
+                with open(os.path.join(dirpath, f), encoding="utf-8") as fh:
+                    tree = ast.parse(fh.read())
+            except (OSError, SyntaxError):
+                continue
+            for node in ast.walk(tree):
+                if not isinstance(node, ast.Call) or not node.args:
+                    continue
+                fn = node.func
+                name = fn.attr if isinstance(fn, ast.Attribute) else (fn.id if isinstance(fn, ast.Name) else "")
+                if name not in ("which", "run", "call", "check_call", "check_output", "Popen", "system", "popen", "startfile", "getoutput", "getstatusoutput"):
+                    continue
+                a = node.args[0]
+                lit = None
+                if isinstance(a, ast.Constant) and isinstance(a.value, str):
+                    lit = a.value.strip().strip("()").split(" ")[0]
+                elif isinstance(a, (ast.List, ast.Tuple)) and a.elts and isinstance(a.elts[0], ast.Constant) and isinstance(a.elts[0].value, str):
+                    lit = a.elts[0].value
+                if lit and "/" not in lit and lit.replace("-", "").replace("_", "").replace(".", "").isalnum():
+                    names.add(lit)
+    return sorted(names)
+
+
 def all_facts(src):
     facts = {c: country_facts(src, c) for c in COUNTRIES}
     env = env_vars(src)
+    progs = helper_programs(src)
     for c in COUNTRIES:
         facts[c]["env_vars"] = env
+        facts[c]["helper_programs"] = progs
     return facts
